@@ -8,7 +8,7 @@ fault-free dry run of the same step in a forked copy of the current state, and
 the resolved address is written back into the step, so the executed program is
 the replay file.
 """
-import sys, io, ast, gc, operator, random, hashlib
+import os, sys, io, ast, gc, operator, random, hashlib
 from fractions import Fraction
 
 from simkit import codec, proc
@@ -23,6 +23,7 @@ OPERATORS = {
     'getitem': operator.getitem, 'matmul': operator.mul,
     'divmod': divmod,
 }
+RECURSION_HEADROOM = 900       # frames a step may nest below its starting depth (CPython's default limit is 1000 in all)
 PY_BUILTINS = {'str': str, 'repr': repr, 'float': float, 'int': int, 'complex': complex, 'hash': hash, 'bool': bool, 'round': round,
                'format': format, 'list': list}
 
@@ -243,7 +244,16 @@ class World(object):
     def _usable(self, actor, v):
         if actor in ('fp', 'iv'):
             return False
-        return hasattr(v, '_mpf_') or hasattr(v, '_mpc_')
+        # an earlier result is re-used as an operand only if its magnitude is moderate: factorial(997) as a
+        # hypergeometric parameter makes the series loop run for minutes inside one generated function, where
+        # no step-clock event can interrupt it (11 of 2 500 C10 runs ended at the wall-clock backstop)
+        def moderate(t):
+            return (not t[1]) or abs(t[2] + t[3]) <= 100
+        if hasattr(v, '_mpf_'):
+            return moderate(v._mpf_)
+        if hasattr(v, '_mpc_'):
+            return moderate(v._mpc_[0]) and moderate(v._mpc_[1])
+        return False
 
     def _concretise(self, v):
         if hasattr(v, '_mpf_'):
@@ -365,6 +375,20 @@ class World(object):
         exc = None
         old = sys.stdout
         sys.stdout = self._null
+        # two schedulers the simulation must own (see simkit/env.py and DESIGN 6.2):
+        #  - the cyclic collector: collect now, outside the monitored region (automatic collection is off)
+        #  - the interpreter's recursion limit: a runaway recursion must end after the same number of frames
+        #    whether the step runs in a pool worker, in a forked child or nested in a callback, so the limit is
+        #    set relative to the depth at which the step starts
+        if self.nested_depth == 0:
+            gc.collect()
+        depth = 0
+        fr = sys._getframe()
+        while fr is not None:
+            depth += 1
+            fr = fr.f_back
+        old_limit = sys.getrecursionlimit()
+        sys.setrecursionlimit(depth + RECURSION_HEADROOM)
         mon.begin(budget=budget, f2=f2, f3=f3, collect=collect, lines=lines)
         try:
             res = th()
@@ -373,6 +397,7 @@ class World(object):
         finally:
             info = mon.end()
             sys.stdout = old
+            sys.setrecursionlimit(max(old_limit, depth + 50))
         if exc is not None and type(exc).__name__ == 'RunTimeout':
             # the wall-clock backstop of simkit.isolate is not an outcome of the step: it ends the
             # run (-> inconclusive), it is never recorded as "the operation raised"
@@ -632,6 +657,10 @@ class World(object):
     def digest(self):
         h = hashlib.sha256()
         h.update(repr(self.log).encode())
+        dump = os.environ.get('VERIF_DUMPLOG')
+        if dump:                # diagnosis of in-process / fork divergences (tools/runseed.py): one line per world
+            with open(dump, 'a') as f:
+                f.write(repr(self.log) + '\n')
         return h.hexdigest()
 
 
